@@ -157,6 +157,8 @@ def roundtrip(word, mode, tiers, stack=False, left=False):
       A._max, A._min, A._sign = rec('max'), rec('min'), rec('sign')
       handlers['brax.math:safe_arccos'] = h_acos
       targets.append('brax.math:safe_arccos')
+    else:
+      A._sign = rec('sign')      # recorded as an opaque generator; a residue that contains it is only a refutation when it replays natively (see below)
     with cut(*targets):
       I = Interp(A, cuts=handlers)
       # multi-dof stacks: kinematics.inverse computes the Euler-angle extraction also for pure slide stacks and discards it with a `where` on a concrete mask;
@@ -214,6 +216,9 @@ def roundtrip(word, mode, tiers, stack=False, left=False):
     r.stats.update({'peak_terms': A.peak, 'signed_angle_calls': len(sa_calls), 'branch_hints': sorted({'%s := %s (%s)' % h for h in A.hints_used})[:6]})
     if r.verdict == REFUTED:
       r.replay = _native_roundtrip(xml)
+      if not stack and any(o[1] == 'sign' for o in ops) and not r.replay.get('reproduced'):
+        # sign(.) was treated as an arbitrary value: without a native witness the residue may be an artefact of that abstraction
+        return Result(UNDECIDED, 'residue through an opaque sign(.) and no native witness: ' + r.detail[:200], stats=r.stats)
     return r
   return Obligation('C08/roundtrip/pos+vel[%s]' % tag, 'brax.kinematics:forward,world_to_joint,inverse (link_to_joint_frame, axis_angle_ang)',
                     'inverse(world_to_joint(forward(q, qd))) = (q, qd): free link (q incl. unit quaternion, qd), slide q, hinge q via signed_angle(sin q, cos q) + atan2 axiom, hinge qd; '
@@ -232,6 +237,16 @@ def _native_roundtrip(xml, tries=20):
     x2 = re.sub(r'axis="[^"]*"', lambda _: 'axis="%s"' % modelgen._f(modelgen.rand_unit(rng)), x2)
     sys = mjcf.loads(x2)
     q, qd = modelgen.rand_state(rng, sys, 1.2, 1.0)
+    if t < 4 and 'f' in sys.link_types:
+      # exact half turns of a free root (scalar part of the unit quaternion exactly 0) and a w < 0 representative
+      q = np.asarray(q, dtype=float).copy()
+      qi_ = 0
+      for ty in sys.link_types:
+        if ty == 'f':
+          q[qi_ + 3:qi_ + 7] = [(0, 1, 0, 0), (0, 0, 0, 1), (0, 0.6, 0, 0.8), (-0.5, 0.5, -0.5, 0.5)][t]
+          qi_ += 7
+        else:
+          qi_ += int(ty)
     x, xd = kinematics.forward(sys, jp.asarray(q), jp.asarray(qd))
     j, jd, _, _ = kinematics.world_to_joint(sys, x, xd)
     q2, qd2 = kinematics.inverse(sys, j, jd)
